@@ -52,20 +52,20 @@ theorem processArg_known (c : Cfg) (h : HState) (k : Key) (ai : It) (p : Nat × 
   rw [hf] at he
   simp only [Res.bind_ok] at he
   split at he
-  · rw [bind_eq_ok] at he
+  · rw [bind_eq_ok_g] at he
     obtain ⟨_, _, he⟩ := he
     simp only [Res.pure_eq, Res.ok.injEq, Prod.mk.injEq] at he
     exact he.2.2.symm
-  · rw [bind_eq_ok] at he
+  · rw [bind_eq_ok_g] at he
     obtain ⟨ait2, _, he⟩ := he
     split at he
     · split at he
-      · rw [bind_eq_ok] at he
+      · rw [bind_eq_ok_g] at he
         obtain ⟨_, _, he⟩ := he
         simp only [Res.pure_eq, Res.ok.injEq, Prod.mk.injEq] at he
         exact he.2.2.symm
       · cases he
-    · rw [bind_eq_ok] at he
+    · rw [bind_eq_ok_g] at he
       obtain ⟨_, _, he⟩ := he
       simp only [Res.pure_eq, Res.ok.injEq, Prod.mk.injEq] at he
       exact he.2.2.symm
